@@ -57,7 +57,7 @@ def run(chk):
                        'branch, which decodes into the table\'s own buffers with the requested float type and defines the row count by '
                        'which the table is truncated; metadata is the file header. Value independence from co-requested columns is C04-R6 / C15-R5.')
     chk.rule('C16-R1', 'a column named c is added iff c is in the load list (key agreement between membership test and name=)', 4)
-    chk.rule('C16-R2', 'defaults for load=None: rvint/pack9 -> (pos, vel); *pid* -> (pid); deprecated load_pos/load_vel mapped as documented', 5)
+    chk.rule('C16-R2', 'defaults for load=None: rvint/pack9 -> (pos, vel); *pid* -> (pid); deprecated load_pos/load_vel mapped as documented; names the detected raw column cannot supply raise ValueError (never an unwritten buffer, a dropped column or a zero-row column)', 5)
     chk.rule('C16-R3', 'auto-detection: exactly one known raw column else ValueError', 2)
     chk.rule('C16-R4', 'decoders write into the table-owned pos/vel buffers with float_dtype=dtype; table truncated to the decoded count; meta = header', 5)
     chk.rule('C16-R6', 'each detectable raw column satisfies exactly one decode branch, which defines the row count', 4)
@@ -110,7 +110,17 @@ def run(chk):
     if len(argn) != 3:
         raise AnalysisError('_resolve_columns: signature changed')
 
+    # what each raw column can supply, read off the decode branches: the decoders of rvint / pack9 fill the table's pos and
+    # vel buffers; the pid branch produces the fields of pid_kwargs, and 'aux' is the raw pid word
+    SUPPLY = {'rvint': {'pos', 'vel'}, 'pack9': {'pos', 'vel'}, 'packedpid': set(fields or ()) | {'aux'}, 'pid': set(fields or ()) | {'aux'}}
+
     def spec(cn, load, lp, lv):
+        out = spec0(cn, load, lp, lv)
+        # a name the raw column cannot supply must be rejected: otherwise its np.empty buffer is returned unwritten (pos/vel
+        # from a pid file), or the column is silently dropped (pid fields from rvint / pack9), or it has no rows
+        return out if set(out) <= SUPPLY[cn] else 'raises ValueError'
+
+    def spec0(cn, load, lp, lv):
         if load is not None:
             return tuple(load)
         if lp is not None or lv is not None:
@@ -127,7 +137,7 @@ def run(chk):
             out += ['pid']
         return tuple(out)
     bad, ncase, undec = [], 0, []
-    for cn, load, lp, lv in itertools.product(('rvint', 'pack9', 'packedpid', 'pid'), (None, ('pos',), ('vel', 'pid'), ()), (None, True, False), (None, True, False)):
+    for cn, load, lp, lv in itertools.product(('rvint', 'pack9', 'packedpid', 'pid'), (None, ('pos',), ('vel', 'pid'), (), ('pid', 'aux'), ('aux',), ('vel', 'pos'), ('lagr_pos', 'density')), (None, True, False), (None, True, False)):
         kwargs = {}
         if lp is not None:
             kwargs['load_pos'] = lp
@@ -154,7 +164,7 @@ def run(chk):
             chk.check(not b, 'C16-R2', RA, '_resolve_columns', f'default columns for raw column {cn!r}', f'{spec(cn, None, None, None)}',
                       f'default load list for a {cn!r} file is {b[0][4] if b else None}; documented default is {spec(cn, None, None, None)}', node=rc, nf=list(spec(cn, None, None, None)))
         b = [x for x in bad if not (x[1] is None and x[2] is None and x[3] is None)]
-        chk.check(not b, 'C16-R2', RA, '_resolve_columns', 'explicit load wins; deprecated load_pos / load_vel mapped as documented', f'{ncase} option combinations',
+        chk.check(not b, 'C16-R2', RA, '_resolve_columns', 'explicit load wins; deprecated load_pos / load_vel mapped as documented; a name the raw column cannot supply is rejected', f'{ncase} option combinations',
                   '; '.join(f'colname={x[0]!r}, load={x[1]}, load_pos={x[2]}, load_vel={x[3]} resolves to {x[4]}, documented {x[5]}' for x in b[:2]), node=rc)
     # ---- R3 detection: the `if colname is None:` block, constant-propagated for every subset of known raw columns in the file
     det = [n for n in walk_no_nested(fn) if isinstance(n, ast.If) and unparse(n.test) == 'colname is None' and n.lineno < min(a.lineno for a in adds)]
@@ -250,6 +260,33 @@ def run(chk):
     chk.check(bool(hp) and not trunc, 'C16-R4', RA, Q, "header['ppd'] is rounded to the nearest integer (or passed on unchanged), never truncated", f'{len(hp)} read(s)',
               (f'{unparse(trunc[0])[:80]}: the header value is truncated, so a stored ppd of 1727.9999999999998 decodes lagr_pos on a 1727^3 lattice' if trunc
                else "header['ppd'] is not read: the decoder does not get the file's own lattice size"), node=trunc[0] if trunc else fn)
+    # header keys: what the decoders need (box, velocity scale, ppd) may be required; anything else is descriptive metadata that
+    # not every Abacus header carries (SimSet is absent from the package's own example simulation): it is read with .get, or under a
+    # test that has established which kind of header this is
+    hreq, hbad = [], []
+    for n in walk_no_nested(fn):
+        if isinstance(n, ast.Subscript) and isinstance(n.value, ast.Name) and n.value.id == 'header' and isinstance(n.ctx, ast.Load) \
+                and isinstance(n.slice, ast.Constant) and isinstance(n.slice.value, str):
+            q, decoder_arg, schema = getattr(n, '_parent', None), False, False
+            child = n
+            while q is not None and q is not fn:
+                if isinstance(q, ast.Call) and (dotted(q.func) or '').startswith('unpack_'):
+                    decoder_arg = True
+                if isinstance(q, ast.Assign) and unparse(q.targets[0]) == 'ppd':
+                    decoder_arg = True
+                if isinstance(q, ast.If) and child in q.body:
+                    # an enclosing test that compares a header field obtained with .get against a constant establishes the schema,
+                    # except for the very key being read
+                    for c in ast.walk(q.test):
+                        if isinstance(c, ast.Call) and isinstance(c.func, ast.Attribute) and c.func.attr == 'get' and unparse(c.func.value) == 'header' \
+                                and c.args and isinstance(c.args[0], ast.Constant) and c.args[0].value in ('SimSet',):
+                            schema = True
+                child, q = q, getattr(q, '_parent', None)
+            (hreq if decoder_arg or schema else hbad).append(n)
+    chk.check(not hbad, 'C16-R4', RA, Q, 'header keys other than the decoder inputs are optional (read with .get or under an established schema)',
+              f'{len(hreq)} required reads',
+              f'{unparse(hbad[0]) if hbad else ""} at line {src.orig_line_of(RA, hbad[0]) if hbad else 0}: a header without this key (light-cone output of a non-AbacusSummit simulation, e.g. the package\'s '
+              'own example simulation) makes read_asdf raise KeyError before anything is decoded', node=hbad[0] if hbad else fn, nontrivial=False)
     tr = [n for n in fn.body if isinstance(n, ast.Assign) and unparse(n.targets[0]) == 'table' and unparse(n.value) == 'table[:nread]']
     rets = [n for n in walk_no_nested(fn) if isinstance(n, ast.Return)]
     okt = len(tr) == 1 and len(rets) == 1 and unparse(rets[0].value) == 'table' and tr[0].lineno < rets[0].lineno
